@@ -270,4 +270,7 @@ class Explorer:
             s.add(c)
         for c in extra:
             s.add(c)
-        return '(set-logic QF_BV)\n' + s.to_smt2()
+        txt = s.to_smt2()
+        for a in ('bvsdiv', 'bvsrem', 'bvudiv', 'bvurem', 'bvsmod'):
+            txt = txt.replace(a + '_i', a)        # z3-internal 'divisor known non-zero' variants (every division here is guarded)
+        return '(set-logic QF_BV)\n' + txt
